@@ -122,6 +122,7 @@ class Graph:
         self.inits = []     # initial nodes
         self.prog = {}      # init node -> program
         self.done = set()   # nodes in which every thread has finished (AllDone)
+        self.cdone = set()  # nodes in which every client program has finished
 
     def edges(self):
         return sum(len(v) for v in self.succ.values())
@@ -160,8 +161,10 @@ def graph(d, module, cfg_text, timeout=900, heap="6g", workers=12):
                 g.succ.setdefault(v, [])
                 if v not in g.lbl:
                     g.lbl[v] = json.loads(_unq(m.group(6)))
-                    if m.group(5) == "1":
+                    if m.group(5) in ("1", "3"):
                         g.done.add(v)
+                    if m.group(5) in ("2", "3"):
+                        g.cdone.add(v)
             elif line.startswith('<<"I"'):
                 m = _init.match(line.rstrip("\n"))
                 u = m.group(1) + ":" + m.group(2)
